@@ -33,7 +33,7 @@ for d in sorted(glob.glob(V + "/seeded/C*/")):
     meta = {
         "id": n,
         "property": prop,
-        "source": NOTES.get(n, {}).get("source", "fresh sub-agent given only the property text%s and a scratch worktree" % (" (plus one-line summaries of the two changes already known, so that it would pick other sites)" if n.endswith(("m3", "m4")) else "")),
+        "source": NOTES.get(n, {}).get("source", "fresh sub-agent given only the property text%s and a scratch worktree" % (" (plus one-line summaries of the changes already known for the property, so that it would pick other sites)" if int(n.split("-m")[1]) >= 3 else "")),
         "summary": am.get("summary", NOTES.get(n, {}).get("summary", "")),
         "needs_to_manifest": am.get("needs", NOTES.get(n, {}).get("needs", "")),
         "files": am.get("files", []),
